@@ -227,6 +227,9 @@ class BlockNode(Node):
             },
             carry_loop_iterations=True,
             block_scope=True,
+            # A block inherits its scope, and with it the tags that are disabled
+            # there (`include` inside a rendered template, for example).
+            disabled_tags=context.disabled_tags,
         )
 
         return stack_item.block.block.render(ctx, buffer)
@@ -281,6 +284,9 @@ class BlockNode(Node):
             },
             carry_loop_iterations=True,
             block_scope=True,
+            # A block inherits its scope, and with it the tags that are disabled
+            # there (`include` inside a rendered template, for example).
+            disabled_tags=context.disabled_tags,
         )
         return await stack_item.block.block.render_async(ctx, buffer)
 
